@@ -118,3 +118,54 @@ func VerifBatchDeparture() {
 	zzverif.Assert(s2.closed, "subscriber_channel_closed_after_close")
 	zzverif.Cover("batch_departure_done")
 }
+
+// Four subscribers [A, B, C, D]: B stops reading until its buffer is full, so a delivery waits at B; meanwhile A
+// leaves; then B reads again. C and D, who stayed, must each receive every event exactly once and in the same order.
+//
+//verif:harness prop=C10 name=batch_fanout_while_leaving threads=9 sched=delay preempt=1 t_preempt=2 unwind=16 witness=lenient
+func VerifBatchFanoutWhileLeaving() {
+	start := zzverif.TimeFromNanos(1_000_000_000)
+	clk := zzverifstubs.NewClock(start)
+	b := New[int, int](vInterval)
+	b.WithClock(clk)
+	ctxA, leaveA := context.WithCancel(context.Background())
+	chA := make(chan int)
+	chB := make(chan int)
+	sC := &vSub{ch: make(chan int)}
+	sD := &vSub{ch: make(chan int)}
+	b.Subscribe(ctxA, chA)
+	b.Subscribe(context.Background(), chB)
+	b.Subscribe(context.Background(), sC.ch)
+	b.Subscribe(context.Background(), sD.ch)
+	aGot := 0
+	go func() { // A reads promptly until it leaves
+		for range chA {
+			zzverif.Ghost(func() { aGot++ })
+		}
+	}()
+	go vConsume(sC)
+	go vConsume(sD)
+	n := 4 // B: 1 held by its forwarder + buffer 2 (scaled from 50) -> the 4th delivery waits at B
+	if !zzverif.Symbolic() {
+		n += 48
+	}
+	for i := 1; i <= n; i++ {
+		b.Batch(i, 100+i)
+		clk.Advance(vInterval)
+		zzverif.WaitQuiescent()
+	}
+	leaveA() // while the n-th delivery is parked at B
+	zzverif.WaitQuiescent()
+	for i := 0; i < n; i++ { // B reads again
+		<-chB
+	}
+	zzverif.WaitQuiescent()
+	for _, s := range []*vSub{sC, sD} {
+		zzverif.Assert(len(s.got) == n, "staying_subscriber_gets_every_event_once")
+		for i := 0; i < len(s.got); i++ {
+			zzverif.Assert(s.got[i] == 101+i, "staying_subscriber_order")
+		}
+	}
+	b.Close()
+	zzverif.Cover("batch_fanout_while_leaving_done")
+}
